@@ -328,6 +328,36 @@ func Sweeps(thorough bool, f func(name string, m ref.Msg, fits bool)) {
 		}
 		f(fmt.Sprintf("AKA.subset=%07b", mask), one(aka(1, 3, 1, ats...)), true)
 	}
+	// transform identifiers of every type, 0 (NONE / reserved) included, alone and next to other transforms of the
+	// same type; proposals numbered in every order (RFC 7296 3.3.1 wants 1, 2, 3 … from a sender, a receiver sees
+	// whatever was sent)
+	for t := uint8(1); t <= 5; t++ {
+		for id := uint16(0); id <= 40; id++ {
+			f(fmt.Sprintf("SA.type×id=%d/%d", t, id), one(ref.Payload{T: ref.PSA, SA: []ref.Proposal{{Num: 1, Proto: 3, SPI: Pat(4, 1), Tr: []ref.Transform{tr(t, id)}}}}), true)
+			f(fmt.Sprintf("SA.type×id+other=%d/%d", t, id), one(ref.Payload{T: ref.PSA, SA: []ref.Proposal{{Num: 1, Proto: 3, SPI: Pat(4, 1), Tr: []ref.Transform{tv(1, 12, 14, 128), tr(t, 14), tr(t, id), tr(5, 0)}}}}), true)
+			f(fmt.Sprintf("SA.type×id first=%d/%d", t, id), one(ref.Payload{T: ref.PSA, SA: []ref.Proposal{{Num: 1, Proto: 1, Tr: []ref.Transform{tr(t, id), tr(t, 2), tr(2, 5)}}}}), true)
+		}
+	}
+	for _, nums := range [][]uint8{{2, 1}, {3, 2, 1}, {2, 3, 1}, {1, 3, 2}, {1, 2, 1, 2}, {1, 1}, {0, 0}, {255, 1}, {1, 2, 3}, {5, 5, 4}} {
+		var props []ref.Proposal
+		for i, n := range nums {
+			props = append(props, ref.Proposal{Num: n, Proto: uint8(1 + i%3), SPI: Pat(4*(i%3), i), Tr: []ref.Transform{tv(1, 12, 14, uint16(128+64*(i%3))), tr(uint8(2+i%4), uint16(i+1))}})
+		}
+		f(fmt.Sprintf("SA.propnums=%v", nums), one(ref.Payload{T: ref.PSA, SA: props}), true)
+		f(fmt.Sprintf("SA.propnums+=%v", nums), ref.Msg{H: BaseHdr, P: []ref.Payload{{T: ref.PNonce, Data: Pat(8, 1)}, {T: ref.PSA, SA: props}, {T: ref.PKE, Group: 2, Data: Pat(8, 2)}}}, true)
+	}
+	// header: zero and non-zero SPIs in every combination with the R / I / V flags and the four exchanges
+	for _, isp := range []uint64{0, 1, 0x0102030405060708} {
+		for _, rsp := range []uint64{0, 0x1112131415161718} {
+			for _, fl := range []uint8{0x00, 0x08, 0x10, 0x18, 0x20, 0x28, 0x30, 0x38} {
+				for _, ex := range []uint8{34, 35, 36, 37} {
+					h := BaseHdr
+					h.ISPI, h.RSPI, h.Flags, h.Exch, h.MsgID = isp, rsp, fl, ex, uint32(ex)-34
+					f(fmt.Sprintf("hdr.spi×flags×exch=%x/%x/%02x/%d", isp, rsp, fl, ex), ref.Msg{H: h, P: []ref.Payload{{T: ref.PNonce, Data: Pat(4, 3)}}}, true)
+				}
+			}
+		}
+	}
 	// traffic selector address shapes: every pair (start, end) of the special address forms of each family
 	// (unspecified, all-ones, loopback, IPv4-mapped and IPv4-compatible IPv6, leading / trailing zeros)
 	v6 := [][]byte{make([]byte, 16), bytesOf(0xff, 16), append(make([]byte, 15), 1),
